@@ -54,7 +54,7 @@ class RScripted(TracerMixin, scripted.ScriptedBase, fsic.BaseModel):
 
 # a class-level default list of traced variables: used for trace=True, never instead of a list given in the call
 class VScripted(TracerMixin, scripted.ScriptedBase, fsic.BaseModel):
-    TRACE_VARIABLES = ['B', 'A']
+    TRACE_VARIABLES = ('B', 'A')   # (any sequence of names)
 
 
 CLASSES = {'T': TScripted, 'AT': ATScripted, 'TA': TAScripted, 'R': RScripted, 'V': VScripted, 'Tc': TScripted}
@@ -72,7 +72,7 @@ def traces_of(m):
     return m[type(m).TRACE_NAME]
 
 
-TRACE_ARGS = [True, ['A', 'B'], 'A', ['X', 'C', 'A'], 'AB', ['AB']]
+TRACE_ARGS = [True, ['A', 'B'], 'A', ['X', 'C', 'A'], 'AB', ['AB'], ('B', 'A')]   # names as a list, a single name, a tuple
 
 
 def names_for(arg):
@@ -91,8 +91,9 @@ def blocks(tier, seed):
     nb = 128
     step = (len(term) + nb - 1) // nb
     out = [{'kind': 'traces', 'lo': i, 'hi': min(i + step, len(term))} for i in range(0, len(term), step)]
-    for i in range(len(c02.CATALOGUE)):
+    for i in c02.catalogue_with_equations():
         out.append({'kind': 'catalogue', 'i': i})
+    out.append({'kind': 'dtypes'})
     return out
 
 
@@ -105,23 +106,26 @@ def same(a, b):
     return canon(np.array(a, dtype=complex)) == canon(np.array(b, dtype=complex))
 
 
+_POS = [1, 1]   # (position of the period under test, the way solve_t is asked for it): [2, -1] = the last period, spelled -1
+
+
 def build(cls, opts, hist, **init):
-    m = scripted.make_scripted(list(range(3)), {1: [(o, 0) for o in hist]}, opts['preHook'] == 'exc', opts['postHook'] == 'exc', cls=cls, hooks_write=True, **init)
+    m = scripted.make_scripted(list(range(3)), {_POS[0]: [(o, 0) for o in hist]}, opts['preHook'] == 'exc', opts['postHook'] == 'exc', cls=cls, hooks_write=True, **init)
     m.A = [1.0, 2.0, 3.0]
     m.B = [-1.0, -2.0, -3.0]
     m.X = [7.0, 8.0, 9.0]
     m.add_variable('AB', [0.5, 1.5, 2.5])  # a variable with a name of more than one character
     if opts['pre'] == 'nonfinite':
-        m.A[1] = np.nan
+        m.A[_POS[0]] = np.nan
     return m
 
 
 def call(m, entry, kw):
     if entry == 'solve_t':
-        return refsolve.call_outcome(m.solve_t, 1, **kw)[:2]
+        return refsolve.call_outcome(m.solve_t, _POS[1], **kw)[:2]
     if entry == 'solve_period':
-        return refsolve.call_outcome(m.solve_period, 1, **kw)[:2]
-    r = refsolve.call_outcome(m.solve, start=1, end=1, **kw)
+        return refsolve.call_outcome(m.solve_period, _POS[0], **kw)[:2]
+    r = refsolve.call_outcome(m.solve, start=_POS[0], end=_POS[0], **kw)
     if r[0] == 'value':
         return (str(bool(r[2][2][0])), r[1])
     return r[:2]
@@ -154,6 +158,8 @@ def expected_labels(exp, opts, hist):
 @robust(1, True)
 def run_case(case):
     opts, hist, arg, entry = case['opts'], case['hist'], case['trace'], case['entry']
+    _POS[:] = [2, -1] if case.get('last') else [1, 1]
+    P = _POS[0]
     hist_full = hist + ['moved'] * 8
     exp = refsolve.ref_trace(opts, hist_full)
     kw = dict(min_iter=opts['minIter'], max_iter=opts['maxIter'], tol=scripted.TOL, failures=opts['failures'],
@@ -161,7 +167,7 @@ def run_case(case):
     TCls = CLASSES[case.get('cls', 'T')]
     init_kw = {'dtype': DTYPES[case['cls']]} if case.get('cls') in DTYPES else {}
     traced, untraced, plain = build(TCls, opts, hist, **init_kw), build(TCls, opts, hist, **init_kw), build(scripted.Scripted, opts, hist, **init_kw)
-    init = values_of(traced, ['A', 'B', 'C', 'X', 'AB'], 1)
+    init = values_of(traced, ['A', 'B', 'C', 'X', 'AB'], P)
     out = []
     r1 = call(traced, entry, dict(kw, trace=arg))
     r0 = call(untraced, entry, kw)
@@ -180,9 +186,9 @@ def run_case(case):
                 out.append(('differential:trace=%r' % off, {'plain': rp}, {'trace=%r' % off: roff}, 'an explicit trace=%r changed the solution' % off))
             if not all(tr.is_empty() and tr.index == [] for tr in traces_of(tw)):
                 out.append(('untraced:trace-written:trace=%r' % off, 'all traces empty', [list(tr.index) for tr in traces_of(tw)], 'a trace was written with trace=%r' % off))
-    if not all(tr.is_empty() for i, tr in enumerate(traces_of(traced)) if i != 1):
-        out.append(('traced:other-period', 'only period 1 traced', [list(tr.index) for tr in traces_of(traced)], 'trace written for another period'))
-    tr = traces_of(traced)[1]
+    if not all(tr.is_empty() for i, tr in enumerate(traces_of(traced)) if i != P):
+        out.append(('traced:other-period', 'only the period solved is traced', [list(tr.index) for tr in traces_of(traced)], 'trace written for another period'))
+    tr = traces_of(traced)[P]
     labels = list(tr.index)
     allowed = expected_labels(exp, opts, hist_full)
     names = list(TCls.TRACE_VARIABLES) if (arg is True and getattr(TCls, 'TRACE_VARIABLES', None)) else names_for(arg)
@@ -196,11 +202,11 @@ def run_case(case):
         else:
             idx = [['A', 'B', 'C', 'X', 'AB'].index(canonical(n)) for n in names]
             log = [e for e in traced.sc_log() if e[0] == 'eval']
-            final = values_of(traced, [canonical(n) for n in names], 1)
+            final = values_of(traced, [canonical(n) for n in names], P)
             after_pre = list(init)
             after_pre[2] += 1000.0  # the scripted pre-solution hook adds 1000 to C
             post_ran = traced.sc_count('post') > 0
-            before_post = values_of(traced, ['A', 'B', 'C', 'X', 'AB'], 1)
+            before_post = values_of(traced, ['A', 'B', 'C', 'X', 'AB'], P)
             if post_ran:
                 before_post[2] -= 5000.0  # ... and the post-solution hook adds 5000
             for col, lab in enumerate(labels):
@@ -224,14 +230,14 @@ def run_case(case):
     # repeated solve of the same period (reset=False): a second segment is appended, the first is kept
     if case.get('again') and not out:
         n1 = len(labels)
-        pre2 = 'finite' if np.all(np.isfinite([traced.A[1], traced.B[1]])) else 'nonfinite'
+        pre2 = 'finite' if np.all(np.isfinite([traced.A[P], traced.B[P]])) else 'nonfinite'
         opts2 = dict(opts, pre=pre2)
         exp2 = refsolve.ref_trace(opts2, ['moved'] * 16)
         r1b = call(traced, entry, dict(kw, trace=arg))
         r0b = call(untraced, entry, kw)
         if r1b != r0b or model_state(traced) != model_state(untraced):
             out.append(('differential:second-solve', r0b, r1b, 'tracing changed the second solve'))
-        labels2 = list(traces_of(traced)[1].index)
+        labels2 = list(traces_of(traced)[P].index)
         if labels2[:n1] != labels:
             out.append(('labels:first-segment-lost', labels, labels2[:n1], 'reset=False must keep the earlier segment'))
         elif labels2[n1:] not in expected_labels(exp2, opts2, ['moved'] * 16):
@@ -264,11 +270,12 @@ def run_traces(block, tier, acc):
         # the other tracer classes: aliases in trace=..., a renamed trace attribute
         extra = [('AT', ALIAS_TRACE_ARGS[0], 'solve_t'), ('AT', 'first', 'solve'), ('TA', ALIAS_TRACE_ARGS[2], 'solve_t'), ('TA', 'alpha', 'solve_period'),
                  ('R', True, 'solve_t'), ('R', 'AB', 'solve'), ('V', True, 'solve_t'), ('V', ['A', 'X'], 'solve'), ('V', 'AB', 'solve_period'), ('Tc', True, 'solve_t'), ('Tc', ['A', 'B'], 'solve')]
+        extra_last = [('T', True, 'solve_t'), ('T', ['A', 'B'], 'solve_t'), ('T', 'A', 'solve')]   # the LAST period of the span, asked for as position -1
         if tier != 'quick':
             extra += [(c, a, e) for c in ('AT', 'TA') for a in ALIAS_TRACE_ARGS + [True] for e in ('solve_t', 'solve')] + [('R', ['A', 'B'], 'solve_period')]
-        for cname, arg, entry in extra:
+        for cname, arg, entry, last in [x + (False,) for x in extra] + [x + (True,) for x in extra_last]:
             if True:
-                case = {'kind': 'trace', 'opts': opts, 'hist': hist, 'trace': arg, 'entry': entry, 'again': False, 'off_variants': arg is True, 'cls': cname}
+                case = {'kind': 'trace', 'opts': opts, 'hist': hist, 'trace': arg, 'entry': entry, 'again': False, 'off_variants': arg is True, 'cls': cname, 'last': last}
                 acc.evaluations += 1
                 try:
                     with guard(5):
@@ -278,7 +285,7 @@ def run_traces(block, tier, acc):
                     continue
                 acc.nontrivial += bool(nontrivial)
                 for key, exp, obs, what in v:
-                    acc.violation(key + ':' + entry + ':' + cname, case, exp, obs, what)
+                    acc.violation(key + ':' + entry + ':' + cname + (':last-period-as-minus-1' if last else ''), case, exp, obs, what)
         acc.sample({'opts': opts, 'hist': hist, 'trace': 'True', 'entry': 'solve_t'}, limit=3)
 
 
@@ -374,6 +381,56 @@ def run_cat_case(case):
     return out
 
 
+_DT_MODEL = fsic.build_model(fsic.parse_model('Y = Y[-1] + X\nZ = Y - 2 * X'))
+_DT_TRACED = type('TracedDT', (TracerMixin, _DT_MODEL), {})
+
+
+@robust()
+def run_dtype_case(case):
+    """A model built with another dtype (large integers, single precision, complex): the snapshots hold the values the model
+    holds - the final one equals the stored solution exactly, whatever the dtype."""
+    dt = {'int64': np.int64, 'float32': np.float32, 'complex': complex, 'float64': float}[case['dtype']]
+    big = 2 ** 60 + 3 if case['dtype'] == 'int64' else (2 ** 20 + 0.5 if case['dtype'] != 'complex' else 1.5 + 2j)
+
+    def mk(cls):
+        m = cls(range(5), dtype=dt)
+        m.Y = [big + k for k in range(5)]
+        m.X = [3 + k for k in range(5)]
+        return m
+
+    a, b = mk(_DT_TRACED), mk(_DT_MODEL)
+    kw = dict(max_iter=4, failures='ignore', errors=case['errors'])
+    ra = refsolve.call_outcome(a.solve, trace=case['trace'], **kw)
+    rb = refsolve.call_outcome(b.solve, **kw)
+    out = []
+    if canon(ra) != canon(rb) or any(canon(a[n]) != canon(b[n]) for n in b.index):
+        out.append(('dtype:differential', canon(rb)[:2], canon(ra)[:2], 'tracing changed the solution of a %s model' % case['dtype']))
+        return out
+    names = list(a.names) if case['trace'] is True else list(case['trace'])
+    for pos in range(1, 5):
+        tr = a.trace[pos]
+        if tr.is_empty():
+            out.append(('dtype:no-trace', 'a trace', 'empty', 'no trace for a solved period'))
+            break
+        final = [a[n][pos].item() for n in names]
+        got = [x.item() if hasattr(x, 'item') else x for x in tr.values[:, -1]]
+        if got != final:
+            out.append(('dtype:final-snapshot', [repr(x) for x in final], [repr(x) for x in got], 'the final snapshot of a %s model is not the stored solution' % case['dtype']))
+            break
+    return out
+
+
+def run_dtypes(acc, tier):
+    for dtype in ('int64', 'float32', 'complex', 'float64'):
+        for trace in (True, ['Y', 'Z'], ['X', 'Y']):
+            for errors in ('raise', 'ignore'):
+                case = dict(kind='dtype', dtype=dtype, trace=trace, errors=errors)
+                acc.evaluations += 1
+                acc.nontrivial += 1
+                for key, exp, obs, what in run_dtype_case(case):
+                    acc.violation(key + ':' + dtype, case, exp, obs, what)
+
+
 def run_catalogue(block, tier, acc):
     i = block['i']
     cls = c02.cat_model(i)
@@ -398,7 +455,9 @@ def run_catalogue(block, tier, acc):
 
 def run_block(block, tier, seed):
     acc = Acc()
-    if block['kind'] == 'traces':
+    if block['kind'] == 'dtypes':
+        run_dtypes(acc, tier)
+    elif block['kind'] == 'traces':
         run_traces(block, tier, acc)
     else:
         run_catalogue(block, tier, acc)
@@ -408,6 +467,8 @@ def run_block(block, tier, seed):
 def run_one(case):
     if case['kind'] == 'trace':
         return run_case(case)[0]
+    if case['kind'] == 'dtype':
+        return run_dtype_case(case)
     return run_cat_case(case)
 
 
